@@ -27,12 +27,22 @@ touches a state-bearing package, receiver type or field is a `mut` sink named `u
 * generated-fact theorems: who writes the read-only flags, who builds query contexts, which callbacks are
   reachable only through the C glue, what the C modules guard, that the state API is classified completely.
 
+* round 3: `readonly_refuses_or_unaffected` ("refuses with an error": a read-only flag never changes what a
+  callback does except by making it return an error — up to the reviewed exemptions `refuse_exemptions`),
+  `readonly_root_unchanged` / `readonly_session_root_unchanged` ("state root unchanged", over an arbitrary
+  interpretation of the events in which only `mut`/`mutQ` events can change the root),
+  `view_function_runs_with_positive_depth` + `newExecutor_sets_isView` + `view_bracket_comes_first` +
+  `is_view_writers` ("a function declared as a view runs with nestedView > 0"), `flag_tests_on_own_context` (whose
+  flags the guards read), `c_view_guard_effective` (condition and action of the C guards),
+  `sql_handles` / `iface_impls_within_class` (statesql.go is part of the analysed files).
+
 Not carried by a theorem (see `notes/C20.md`): fidelity of the extractor and of the sink/read-only tables
-(both exercised on every run by the corpus of synthetic callbacks, `corpus_verdicts`); LuaJIT, SQLite and
-the C glue themselves; "state root unchanged" as a statement about the trie (it follows from "no mutating
-host operation ran" only through the storage layers of C10/C12).
+(both exercised on every run by the corpus of synthetic callbacks, `corpus_verdicts`; the `ro` entries of the
+state API and the read-only SQL connection are driven on the real code by harness/c20); LuaJIT, SQLite and the C
+glue themselves (the view bracket for calls inside one Lua state is in the patched LuaJIT).
 -/
 import Aergo.Lemmas.HostApi
+import Aergo.Lemmas.HostApiDeep
 import Aergo.Gen.HostApi
 
 namespace Aergo.Props.C20
@@ -158,8 +168,7 @@ example : (Gen.HostApi.program.fns.find? (·.name == "luaSetDB")).map (·.export
 
 /-- The only guard that is conjoined with another condition is `luaSendAmount`'s (`… && amount > 0`). -/
 theorem guard_when_sites :
-    Gen.HostApi.guardWhen =
-      [("luaSendAmount", "(ctx.isQuery == true || ctx.nestedView > 0) && amountBig.Cmp(zeroBig) > 0")] := rfl
+    Gen.HostApi.guardWhen = [("luaSendAmount", "(query || view) && «amountBig.Cmp(zeroBig) > 0»")] := rfl
 
 /-- The assumptions `readonly_no_mutation` makes about condition atoms, all of them: in `luaSendAmount`,
 `amountBig.Cmp(zeroBig) > 0 ∨ amountBig.Cmp(zeroBig) == 0`, i.e. the amount is not negative.
@@ -228,8 +237,8 @@ exactly these (the `mutQ` sinks `beginTx` / `savepoint` sit in their non-query a
 `all_callbacks_ok` checks in mode Q). -/
 theorem query_only_branches :
     Gen.HostApi.queryOnly =
-      [("luaGetDbHandle", "ctx.isQuery == true"), ("luaGetDbHandle", "ctx.isQuery == false"),
-       ("LuaGetDbHandleSnap", "stateSet.isQuery != true"), ("setRandomSeed", "ctx.isQuery")] ∧
+      [("luaGetDbHandle", "query"), ("luaGetDbHandle", "!query"),
+       ("LuaGetDbHandleSnap", "!query"), ("setRandomSeed", "query")] ∧
     Gen.HostApi.viewOnly = [] ∧
     Gen.HostApi.program.sitesOf (· == .mutQ) =
       [("luaGetDbHandle", "beginTx"), ("luaGetDbHandle", "sqlTx.savepoint")] := by
@@ -243,6 +252,9 @@ are not required to be guarded (`luaClearRecovery`, `luaDropEvent` have no guard
 theorem restore_sites :
     Gen.HostApi.program.sitesOf (· == .restore) =
       [("luaDropEvent", "field events"), ("luaDropEvent", "field eventCount"),
+       ("writableSqlTx.rollback", "sql.Tx.Rollback"),
+       ("writableSqlTx.rollbackToSavepoint", "sql.Tx.Exec \"rollback to savepoint…\""),
+       ("writableSqlTx.rollbackToSubSavepoint", "sql.Tx.Exec \"rollback to savepoint…\""),
        ("executor.rollbackToSavepoint", "sqlTx.rollbackToSavepoint"),
        ("clearRecoveryPoint", "recoveryPoint.revertState")] := by
   decide +kernel
@@ -324,6 +336,259 @@ theorem c_sql_execution_guarded :
        ("pstmt_methods", "exec", "db_pstmt_exec", ["luaCheckView"]),
        ("db_lib", "exec", "db_exec", ["luaCheckView"])] := by
   decide +kernel
+
+
+/-! ## Round 3 — whose flags the guards read -/
+
+/-- Every test of `isQuery` / `nestedView` in the analysed functions reads the function's *own* context
+(`contexts[<parameter>]`, a `*vmContext` parameter or receiver, the `ctx` of the executor the function is a method
+of or built itself from its own context): there is no test on another object (such a test is an opaque
+condition in the IR, so `all_callbacks_ok` does not rest on it), and no function hands anything but its own
+context to an in-package function that takes a `*vmContext`, or puts it into an `executor` literal. -/
+theorem flag_tests_on_own_context : Gen.HostApi.flagForeign = [] ∧ Gen.HostApi.ctxArgs = [] := ⟨rfl, rfl⟩
+
+/-! ## Round 3 — a function declared as a view runs with `nestedView > 0` -/
+
+/-- `executor.isView` is assigned only while an executor is built (`newExecutor`): from the `View` bit of the
+function's ABI entry (constructor and ordinary call) and `true` for the fee-delegation check. -/
+theorem is_view_writers :
+    Gen.HostApi.isViewWrites = [("newExecutor", "f.View"), ("newExecutor", "true"), ("newExecutor", "f.View")] ∧
+    Gen.HostApi.program.sitesOf (· == .viewSet) =
+      [("newExecutor", "isView := f.View"), ("newExecutor", "isView := true"), ("newExecutor", "isView := f.View")] := by
+  refine ⟨rfl, by decide +kernel⟩
+
+/-- Body of a function of the regenerated program, by name (`skip` if there is none: the theorems below are then
+false, not vacuous). -/
+def bodyOf (name : String) : Stmt :=
+  match Gen.HostApi.program.fns.find? (·.name == name) with
+  | some fn => fn.body
+  | none => .skip
+
+/-- Whenever `newExecutor` runs through to its final `return ce` (all earlier returns are the error exits, which
+leave `ce.err` / `ce.preErr` set so that `executor.call` runs no function), it has assigned `ce.isView` on the way. -/
+theorem newExecutor_sets_isView :
+    ∃ init, (bodyOf "newExecutor").dropFinalRet = some init ∧
+      ∀ (q v : Bool) (ρ : Env) (tr : List Sink), Exec Gen.HostApi.program q v ρ init tr .normal →
+        ∃ e ∈ tr, e.kind = .viewSet := by
+  have h : ((bodyOf "newExecutor").dropFinalRet.map (·.emitsOnNormal .viewSet)) = some true := by decide +kernel
+  obtain ⟨init, hi, he⟩ := Option.map_eq_some_iff.mp h
+  exact ⟨init, hi, fun q v ρ tr hx => emitsOnNormal_sound hx rfl he⟩
+
+/-- In `executor.call`, with `ce.isView` set, nothing is emitted before `ctx.nestedView++` — in particular
+`vm_loadcall` / `vm_pcall` (the places where contract code runs and calls back) come after it — and the matching
+`nestedView--` is deferred (shape checked by `isBracket`). -/
+theorem view_bracket_comes_first :
+    ∃ a, (Gen.HostApi.program.fns.find? (·.name == "executor.call")).bind (·.atomIdx? "executor.isView") = some a ∧
+      ∀ (q v : Bool) (ρ : Env), ρ a = true → ∀ (tr : List Sink) (o : Out),
+        Exec Gen.HostApi.program q v ρ (bodyOf "executor.call") tr o →
+          tr = [] ∨ ∃ e rest, tr = e :: rest ∧ e.kind = .viewInc := by
+  refine ⟨1, by decide +kernel, ?_⟩
+  intro q v ρ ha tr o hx
+  exact bracketFirst_sound ha hx (by decide +kernel)
+
+/-- **View depth.**  `nestedView` as maintained by the bracket (`+1` on entering a function declared as a view,
+`-1` when that function returns or is unwound) equals the number of view functions on the call stack, for every
+prefix of every well-bracketed run … -/
+theorem view_depth_counts_open_views (evs : List ViewDepth.Ev) (s : ViewDepth.St)
+    (h : ViewDepth.run ⟨0, []⟩ evs = some s) : s.counter = ViewDepth.openViews s.stack :=
+  ViewDepth.run_inv evs ⟨0, []⟩ s h rfl
+
+/-- … hence the guards' test `nestedView > 0` holds exactly while some function on the stack is a view: everything
+a view function calls — directly, through `contract.call`, `pcall`, nested views that return — runs read-only. -/
+theorem view_function_runs_with_positive_depth (evs : List ViewDepth.Ev) (s : ViewDepth.St)
+    (h : ViewDepth.run ⟨0, []⟩ evs = some s) : 0 < s.counter ↔ true ∈ s.stack := by
+  rw [view_depth_counts_open_views evs s h]
+  exact ViewDepth.openViews_pos
+
+/-- Example (test on sample values): view → plain call → nested view returns → still inside the outer view. -/
+example : ViewDepth.run ⟨0, []⟩ [.enter true, .enter false, .enter true, .leave] = some ⟨1, [false, true]⟩ := by decide
+
+/-- `luaCheckView`, the callback the C guards call, returns the own context's `nestedView`. -/
+theorem check_view_returns_depth : Gen.HostApi.checkViewRet = ["nestedView"] := rfl
+
+/-! ## Round 3 — "refuses with an error" -/
+
+/-- Every function of the regenerated program is either on the exemption list or *flag-transparent or refusing*:
+each branch on a read-only flag is a refusal (the arm that only a set flag can select returns an error). -/
+theorem refuse_ok : Gen.HostApi.program.refuseOK = true := by decide +kernel
+
+/-- The exemptions, all of them (functions whose behaviour depends on a flag without an error return), and the
+shape of every flag-dependent branch of the program. -/
+theorem refuse_exemptions :
+    Gen.HostApi.refuseExempt.map (·.1) = ["luaSetRecoveryPoint", "luaGetDbHandle", "LuaGetDbHandleSnap", "setRandomSeed"] ∧
+    (Gen.HostApi.program.fns.filter (·.body.startsExempt)).map (·.name) =
+      ["luaSetRecoveryPoint", "luaGetDbHandle", "LuaGetDbHandleSnap", "setRandomSeed"] ∧
+    Gen.HostApi.flagBranches =
+      [("luaSetDB", "query || view", "then=refuse else=skip"),
+       ("luaDelDB", "query || view", "then=refuse else=skip"),
+       ("luaCallContract", "query || view", "then=refuse else=skip"),
+       ("luaSendAmount", "(query || view) && «amountBig.Cmp(zeroBig) > 0»", "then=refuse else=skip"),
+       ("luaSetRecoveryPoint", "query || view", "then=ret else=skip"),
+       ("luaGetDbHandle", "query", "then=code else=code"),
+       ("luaGetDbHandle", "!query", "then=code else=skip"),
+       ("luaDeployContract", "query || view", "then=refuse else=skip"),
+       ("luaEvent", "query || view", "then=refuse else=skip"),
+       ("luaGovernance", "query || view", "then=refuse else=skip"),
+       ("LuaGetDbHandleSnap", "!query", "then=refuse else=skip"),
+       ("setRandomSeed", "query", "then=skip else=skip")] := by
+  refine ⟨rfl, by decide +kernel, rfl⟩
+
+/-- **"Every host operation that could change state refuses with an error."**  For every function of the current
+tree and every execution under any flags (any path, nested calls, re-entrant callbacks): either an error is
+returned somewhere (`refuse` event), or a function of the exemption list ran (`exempt` event), or the very same
+run — same events, same outcome — is possible with both read-only flags clear.  Together with
+`readonly_no_mutation`: a callback invoked in a read-only context with arguments for which it would mutate in a
+writable context cannot run to that mutation, so it returns an error (or is exempt). -/
+theorem readonly_refuses_or_unaffected (q v : Bool)
+    (f : Nat) (fn : Fn) (hf : Gen.HostApi.program.fn? f = some fn)
+    (ρ : Env) (tr : List Sink) (o : Out) (hx : Exec Gen.HostApi.program q v ρ fn.body tr o) :
+    (∃ e ∈ tr, e.kind = .refuse ∨ e.kind = .exempt) ∨ Exec Gen.HostApi.program false false ρ fn.body tr o := by
+  have hok := (List.all_eq_true.mp refuse_ok) fn (fn?_mem hf)
+  simp only [Bool.or_eq_true] at hok
+  rcases hok with hex | htr
+  · obtain ⟨e, he, hk⟩ := startsExempt_emits hx hex
+    exact .inl ⟨e, he, .inr hk⟩
+  · exact transp_sound refuse_ok hx htr
+
+/-- Non-vacuity (test on sample values): the guarded sample setter refuses in a query … -/
+example : Sample.refusingSetter.refuseOK = true ∧
+    Exec Sample.refusingSetter true false (fun _ => false) Sample.refusingBody [⟨.refuse, 1⟩] .returned :=
+  ⟨by decide, .seqX (.iteT ⟨true, false, rfl, rfl, rfl⟩ (.seqN .sink .ret)) (by decide)⟩
+
+/-- … and a setter whose guard swallows the call silently is rejected. -/
+example : Sample.swallowingSetter.refuseOK = false := by decide
+
+/-! ## Round 3 — "the state root is unchanged" -/
+
+/-- An interpretation of the sink events over an arbitrary state type: each event is an operation of the abstract
+recovery-point machine (`mutate f`, `snap`, `restore k`); `root` is what an observer of the chain state sees.
+The one requirement: only `mut` and `mutQ` events may change the root (that is what the classification tables
+claim: every other class is a read, a marker, a cache, or bookkeeping). -/
+structure Interp (S R : Type) where
+  root : S → R
+  op : Sink → Snap.Op S
+  benign : ∀ e : Sink, e.kind ≠ .mut → e.kind ≠ .mutQ → (op e).preserves root
+
+/-- **Read-only execution leaves the state root unchanged.**  Under any such interpretation, the state reached by
+the events of a read-only invocation of an exported callback has the root it started with — provided restores
+address recovery points taken inside the invocation (`Snap.run` from an empty stack is defined) and, for a view
+function running inside a transaction (`q = false`), opening the writable SQL transaction / savepoint (`mutQ`)
+does not by itself change data (SQL execution in that mode is stopped by the C guard, `c_view_guard_effective`). -/
+theorem readonly_root_unchanged {S R : Type} (I : Interp S R) (q v : Bool) (hro : (q || v) = true)
+    (hQ : q = false → ∀ e : Sink, e.kind = .mutQ → (I.op e).preserves I.root)
+    (f : Nat) (fn : Fn) (hf : Gen.HostApi.program.fn? f = some fn) (hexp : fn.exported = true)
+    (ρ : Env) (hρ : fn.okEnv ρ) (tr : List Sink) (o : Out)
+    (hx : Exec Gen.HostApi.program q v ρ fn.body tr o)
+    (σ : S) (st : Snap.St S) (hrun : Snap.run ⟨σ, []⟩ (tr.map I.op) = some st) :
+    I.root st.cur = I.root σ := by
+  have hno := readonly_no_mutation q v hro f fn hf hexp ρ hρ tr o hx
+  refine (Snap.run_preserves I.root σ (tr.map I.op) ⟨σ, []⟩ rfl (by intro x hx; cases hx) ?_ st hrun).1
+  intro op hop
+  obtain ⟨e, he, rfl⟩ := List.mem_map.mp hop
+  obtain ⟨h1, h2⟩ := hno e he
+  by_cases hk : e.kind = .mutQ
+  · cases q with
+    | true => exact absurd hk (h2 rfl)
+    | false => exact hQ rfl e hk
+  · exact I.benign e h1 hk
+
+/-- The same for a whole read-only session (any sequence of callback invocations = any contract program). -/
+theorem readonly_session_root_unchanged {S R : Type} (I : Interp S R) (q v : Bool) (hro : (q || v) = true)
+    (hQ : q = false → ∀ e : Sink, e.kind = .mutQ → (I.op e).preserves I.root)
+    (calls : List (Invocation q v))
+    (σ : S) (st : Snap.St S) (hrun : Snap.run ⟨σ, []⟩ ((calls.flatMap (·.tr)).map I.op) = some st) :
+    I.root st.cur = I.root σ := by
+  have hno := readonly_session_no_mutation q v hro calls
+  refine (Snap.run_preserves I.root σ _ ⟨σ, []⟩ rfl (by intro x hx; cases hx) ?_ st hrun).1
+  intro op hop
+  obtain ⟨e, he, rfl⟩ := List.mem_map.mp hop
+  obtain ⟨h1, h2⟩ := hno e he
+  by_cases hk : e.kind = .mutQ
+  · cases q with
+    | true => exact absurd hk (h2 rfl)
+    | false => exact hQ rfl e hk
+  · exact I.benign e h1 hk
+
+/-- Non-vacuity (test on sample values): an interpretation over `Nat × Nat` (root = first component) in which
+`mut` events do change the root, `txctl` events snapshot and `restore` events go back one snapshot. -/
+def Sample.interp : Interp (Nat × Nat) Nat where
+  root := (·.1)
+  op := fun e => match e.kind with
+    | .mut => .mutate fun s => (s.1 + 1, s.2)
+    | .mutQ => .mutate fun s => (s.1 + 1, s.2)
+    | .txctl => .snap
+    | .restore => .restore 0
+    | _ => .mutate fun s => (s.1, s.2 + 1)
+  benign := by
+    intro e h1 h2
+    cases hk : e.kind <;> simp_all [Snap.Op.preserves]
+
+example : (Snap.run (S := Nat × Nat) ⟨(5, 0), []⟩
+    ([⟨.txctl, 0⟩, ⟨.cache, 1⟩, ⟨.restore, 2⟩, ⟨.refuse, 3⟩].map Sample.interp.op)).map (·.cur) = some (5, 1) := by
+  decide
+
+/-! ## Round 3 — the C guards: condition and action -/
+
+/-- **The C guards are effective.**  Every registered Lua function that executes SQL (other than `rs:next`, which
+only steps statements created by `db.query` / `pstmt:query`) has, before its first SQL execution, a guard
+`if (luaCheckView(…) ⋈ k) <raise a Lua error>` whose comparison holds for *every* positive view depth: with
+`nestedView = n > 0` the function does not get as far as the SQL execution.  (A guard weakened in place —
+`> 1`, a conjunction, an action that does not raise — makes `viewGuarded` false.) -/
+theorem c_view_guard_effective :
+    ∀ f ∈ Gen.HostApi.cLuaFns, f.sqlStep = true → (f.table, f.luaName) ≠ ("rs_methods", "next") →
+      ∀ n : Int, 0 < n → f.reachesStep n = false := by
+  have h : (Gen.HostApi.cLuaFns.filter fun f => f.sqlStep && !(f.table == "rs_methods" && f.luaName == "next")).all
+      (·.viewGuarded) = true := by decide +kernel
+  intro f hf hs hne n hn
+  refine CLuaFn.viewGuarded_sound ((List.all_eq_true.mp h) f (List.mem_filter.mpr ⟨hf, ?_⟩)) n hn
+  simp only [Bool.and_eq_true, hs, true_and, Bool.not_eq_true', Bool.and_eq_false_iff, beq_eq_false_iff_ne, ne_eq]
+  by_cases ht : f.table = "rs_methods"
+  · right
+    intro hl
+    exact hne (by rw [ht, hl])
+  · left; exact ht
+
+/-- Test on sample values: a guard weakened to `> 1` lets depth 1 through; one that does not raise stops nothing. -/
+example : (CLuaFn.mk "db_module.c" "db_lib" "exec" "db_exec" [] true ["luaCheckView"]
+    [⟨"luaCheckView", .gt 1, true, ""⟩]).reachesStep 1 = true := by decide
+example : (CLuaFn.mk "db_module.c" "db_lib" "exec" "db_exec" [] true ["luaCheckView"]
+    [⟨"luaCheckView", .gt 0, false, ""⟩]).reachesStep 1 = true := by decide
+example : (CLuaFn.mk "db_module.c" "db_lib" "exec" "db_exec" [] true ["luaCheckView"]
+    [⟨"luaCheckView", .gt 0, true, ""⟩]).reachesStep 1 = false := by decide
+
+/-! ## Round 3 — statesql.go is analysed -/
+
+/-- The only `sql.Open` reachable from the analysed entry points is `readOnlyConn`'s, through the query driver, with
+`&_query_only=true` in its DSN (a `sql.Open` without that literal is a `mutQ` sink: `all_callbacks_ok` in mode Q);
+the SQL texts the analysed functions execute through database/sql are savepoint / transaction control and the
+litetree snapshot selection. -/
+theorem sql_handles :
+    Gen.HostApi.sqlOpens = [("readOnlyConn", "queryDriver", "dataSrc(dbName) + \"&_query_only=true\"", "query_only")] ∧
+    Gen.HostApi.sqlExecs =
+      [("writableSqlTx.begin", "begin", "txctl"),
+       ("writableSqlTx.release", "release savepoint", "txctl"),
+       ("writableSqlTx.rollbackToSavepoint", "rollback to savepoint", "restore"),
+       ("writableSqlTx.rollbackToSubSavepoint", "rollback to savepoint", "restore"),
+       ("writableSqlTx.savepoint", "savepoint", "txctl"),
+       ("writableSqlTx.subRelease", "release savepoint", "txctl"),
+       ("writableSqlTx.subSavepoint", "savepoint", "txctl"),
+       ("litetree.snapshotView", "pragma branch=", "txctl")] := ⟨rfl, rfl⟩
+
+/-- The methods of the `sqlTx` interface are classified by the tables (the extractor cannot resolve the dynamic
+type); every implementation (`writableSqlTx`, `readOnlySqlTx`, the shared `sqlTxCommon`) stays within the class of
+its interface method: nothing reachable from it (6 call levels) ranks higher.  In particular
+`sqlTxCommon.getHandle` is a pure read and everything `readOnlySqlTx` does is at most connection control. -/
+theorem iface_impls_within_class :
+    Gen.HostApi.ifaceImpls.all (fun r =>
+      match rankOfClass r.2.1, Gen.HostApi.program.index? r.2.2 with
+      | some k, some i => decide (maxRankN Gen.HostApi.program 6 i ≤ k)
+      | _, _ => false) = true ∧
+    (Gen.HostApi.ifaceImpls.filter fun r => r.2.2.startsWith "readOnlySqlTx").all (fun r =>
+      match Gen.HostApi.program.index? r.2.2 with
+      | some i => decide (maxRankN Gen.HostApi.program 6 i ≤ 2)
+      | none => false) = true ∧
+    12 ≤ Gen.HostApi.ifaceImpls.length := by
+  refine ⟨by decide +kernel, by decide +kernel, by decide +kernel⟩
 
 /-! ## Inventories -/
 
